@@ -62,6 +62,7 @@ structure St where
   res : Res.St := {}                               -- C18: the resource ledger machine
   resLast : Std.HashMap Nat Nat := {}              -- C18: last key accepted by each writer (ordering gate)
   sortersGone : List Nat := []                     -- C06: sorters whose temporary directory has vanished (a spill now stops the process)
+  resKpad : Nat := 0                               -- C18: res.kpad — every key of the history carries this many extra bytes
   resSMin : Std.HashMap Nat Nat := {}              -- C18: smallest key added to each sorter (first entry mtbl_sorter_write offers)
   tp : Option Tp.St := none                        -- C13: the threadpool machine being replayed
   tpk : Option TpK.St := none                      -- C13/C14: the k-client machine being replayed (tp.multi)
@@ -1072,7 +1073,8 @@ def parseIds (x : String) : List Nat := if x == "-" then [] else (x.splitOn ",")
 def stepRes (s : St) (line : String) : Option (St × String) :=
   let upd (s : St) (op : Res.Op) (reply : String) : Option (St × String) := some ({ s with res := Res.step s.res op }, reply)
   match line.trimAscii.toString.splitOn " " with
-  | ["res.begin"] => some ({ s with res := { fixF6 := s.res.fixF6, fixF10 := s.res.fixF10 }, resLast := {}, resSMin := {} }, "ok")
+  | ["res.begin"] => some ({ s with res := { fixF6 := s.res.fixF6, fixF10 := s.res.fixF10 }, resLast := {}, resSMin := {}, resKpad := 0 }, "ok")
+  | ["res.kpad", n] => n.toNat?.map fun n => ({ s with resKpad := if n > 2068 then 0 else n }, "ok")
   | ["cfg", "fixF6", v] => some ({ s with res := { s.res with fixF6 := v == "1" } }, "ok")
   | ["cfg", "fixF10", v] => some ({ s with res := { s.res with fixF10 := v == "1" } }, "ok")
   | "res.table" :: t :: n :: _ :: _ :: _ => match t.toNat?, n.toNat? with   -- optional: codec, value length (content only)
@@ -1101,7 +1103,7 @@ def stepRes (s : St) (line : String) : Option (St × String) :=
       let fk : Option Nat := if mg.startsWith "fail" then (mg.drop 4).toString.toNat? else none
       -- a pool object with zero threads leaves the sorter's inner pool NULL: chunks are then written synchronously
       let pooled := (kv args "pool").getD "-" != "-" && kvNat args "pth" 1 != 0
-      upd { s with resSMin := s.resSMin.erase i } (.sorter i { limit := if mem < 64 then 64 else mem, eo := kvNat args "eo" 8, failKey := fk, pooled }) "ok"
+      upd { s with resSMin := s.resSMin.erase i } (.sorter i { limit := if mem < 64 then 64 else mem, eo := kvNat args "eo" 8, klen := 6 + s.resKpad, failKey := fk, pooled }) "ok"
   | ["res.sadd", i, k, vl] => match i.toNat?, k.toNat?, vl.toNat? with
     | some i, some k, some vl =>
       match Res.getObj s.res i with
